@@ -4,6 +4,6 @@ CONSTANTS
   Chunks = {1, 2, 3}
   Depths = {0, 1, 2}
   WriteSizes = {1, 2, 3}
-INVARIANTS PrefixOk AtMostOneLast LastIsComplete NothingAfterEnd FailNeverLast EmptyIsSingle AsBuilt
-PROPERTIES Finishes AfterCancelError
+INVARIANTS AfterCancelError PrefixOk AtMostOneLast LastIsComplete NothingAfterEnd FailNeverLast EmptyIsSingle AsBuilt
+PROPERTIES Finishes
 CHECK_DEADLOCK FALSE
